@@ -14,6 +14,7 @@ import (
 	"net"
 	"os"
 	"runtime"
+	"sort"
 	"sync"
 	"sync/atomic"
 	"testing"
@@ -40,6 +41,40 @@ type c13Rec struct {
 	jmu     sync.Mutex
 	nev     int
 	maxLive int
+	// events of the execution are buffered: the time values of wp.stamp (lastUseTime) and
+	// wp.clean.crit (criticalTime) are replaced by their order-preserving ranks at flush
+	buf   []vfRec
+	times []time.Time // buf[i]["ti"] indexes into times
+}
+
+// flush writes the buffered events of one execution; every time value is replaced by its rank
+// among all time values of the execution (Time.Compare: monotonic clock readings), equal
+// values get equal ranks, ranks start at 1 (0 is "never used", the initial lastUse).
+func (r *c13Rec) flush() {
+	r.mu.Lock()
+	defer r.mu.Unlock()
+	idx := make([]int, len(r.times))
+	for i := range idx {
+		idx[i] = i
+	}
+	sort.SliceStable(idx, func(a, b int) bool { return r.times[idx[a]].Compare(r.times[idx[b]]) < 0 })
+	rank := make([]int, len(r.times))
+	cur := 0
+	for k, i := range idx {
+		if k == 0 || r.times[idx[k-1]].Compare(r.times[i]) != 0 {
+			cur++
+		}
+		rank[i] = cur
+	}
+	for _, rec := range r.buf {
+		if ti, ok := rec["ti"]; ok {
+			rec["a"] = rank[ti.(int)]
+			delete(rec, "ti")
+		}
+		r.tw.Emit(rec)
+	}
+	r.buf = nil
+	r.times = nil
 }
 
 func (r *c13Rec) sleepJitter() {
@@ -115,17 +150,29 @@ func (r *c13Rec) hook(ev string, o1, o2 any, a, b int) {
 			return
 		}
 		rec["w"] = r.widOf(o2.(*workerChan))
-	case "wp.clean.sel", "wp.stop", "wp.stop.begin":
+		if ev == "wp.stamp" {
+			// read by the goroutine that has just written it, before it takes wp.lock
+			rec["ti"] = len(r.times)
+			r.times = append(r.times, o2.(*workerChan).lastUseTime)
+		}
+	case "wp.clean.sel", "wp.stop", "wp.stop.begin", "wp.clean.none":
 		if o1.(*workerPool) != r.wp {
 			r.mu.Unlock()
 			return
 		}
+	case "wp.clean.crit":
+		if o1.(*workerPool) != r.wp {
+			r.mu.Unlock()
+			return
+		}
+		rec["ti"] = len(r.times)
+		r.times = append(r.times, o2.(time.Time))
 	default:
 		r.mu.Unlock()
 		return
 	}
 	r.nev++
-	r.tw.Emit(rec)
+	r.buf = append(r.buf, rec)
 	r.mu.Unlock()
 	if ev == "wp.recv" {
 		r.sleepJitter()
@@ -187,6 +234,7 @@ func c13RunOne(t *testing.T, rng *rand.Rand, tw *vfTraceWriter, trNo int, cfg c1
 	defer func() { workerChanCap = oldCap }()
 	tw.Emit(vfRec{"ev": "init", "nw": cfg.maxw + 9, "nc": 8, "nconns": cfg.nconns, "maxw": cfg.maxw, "cap": cfg.cap, "tr": trNo})
 	VerifHook = rec.hook
+	defer rec.flush()
 	wp.Start()
 
 	conns := make([]*c13Conn, cfg.nconns+1)
